@@ -69,6 +69,31 @@ func newRegistry() *minify.M {
 	m.AddRegexp(regexp.MustCompile("^(application|text)/(x-)?(java|ecma)script$"), &js.Minifier{})
 	m.AddRegexp(regexp.MustCompile("[/+]json$"), &mjson.Minifier{})
 	m.AddRegexp(regexp.MustCompile("[/+]xml$"), &xml.Minifier{})
+	// a minifier that is done after a prefix of its input (a custom function, or a command such as head): it returns nil without
+	// reading to the end
+	m.AddFunc("x/prefix", func(_ *minify.M, w io.Writer, r io.Reader, _ map[string]string) error {
+		buf := make([]byte, 3)
+		n, _ := io.ReadFull(r, buf)
+		_, err := w.Write(buf[:n])
+		return err
+	})
+	// a streaming minifier: copies as it reads and stops at the first failed write (before it has read everything)
+	m.AddFunc("x/copy", func(_ *minify.M, w io.Writer, r io.Reader, _ map[string]string) error {
+		buf := make([]byte, 2)
+		for {
+			n, rerr := r.Read(buf)
+			if 0 < n {
+				if _, werr := w.Write(buf[:n]); werr != nil {
+					return werr
+				}
+			}
+			if rerr == io.EOF {
+				return nil
+			} else if rerr != nil {
+				return rerr
+			}
+		}
+	})
 	return m
 }
 
